@@ -166,8 +166,10 @@ def judge_one(plan, tr: P.Trace, fl: str):
                 return V("results", "blob-wrong-plaintext", "reference decrypts the blob to different bytes", ot), probes
             if (kid["l0"], kid["l1"], kid["l2"]) != g["position"] or kid["root_key_id"] != g["envelope_fields"]["root_key_id"]:
                 return V("results", "blob-names-other-key", f"blob names {(kid['l0'], kid['l1'], kid['l2'])} but the DC returned {g['position']}", ot), probes
-            if p["sid"] != ot.op["sid"] or (kid["domain"], kid["forest"]) != (plan["dc"]["domain"], plan["dc"]["forest"]):
-                return V("results", "blob-metadata", "SID / domain / forest in the blob differ from the request / DC envelope", ot), probes
+            if p["sid"] != ot.op["sid"]:
+                return V("results", "blob-metadata", "the SID in the blob differs from the protection descriptor of the request", ot), probes
+            # (domain / forest copied from the envelope are recorded, not judged: the statement is silent on them)
+            probes["kid_names_copied"] = probes.get("kid_names_copied", 0) + int((kid["domain"], kid["forest"]) == (plan["dc"]["domain"], plan["dc"]["forest"]))
             probes["protect_" + g["kind"]] = probes.get("protect_" + g["kind"], 0) + 1
             probes["l2_omitted"] = probes.get("l2_omitted", 0) + int(bool(g.get("l2_omitted")))
         # sealing + verification trailer (RefDC enforces presence; here: exact content)
